@@ -4,6 +4,9 @@ package main
 // behind the auth guard whose budget a request without a valid token must never touch.
 
 import (
+	"go/parser"
+	"io/fs"
+	"sort"
 	"os"
 	"path/filepath"
 	"regexp"
@@ -463,4 +466,129 @@ func extractC04Config(l *lean) {
 		}
 	}
 	l.def("httpModuleName", "String", fmt.Sprintf("%q", mn), mn)
+}
+
+// ---------------- every route registration in the repository (non-test code), by go/ast: the path argument is evaluated as a
+// constant string expression (literals, `+`, package-level constants of the same package, the `baseURL` parameter of generated
+// wrappers = ""); what cannot be evaluated is listed verbatim so that a theorem pins it
+func extractC04Routes(l *lean) {
+	verbs := map[string]int{"GET": 0, "POST": 0, "PUT": 0, "DELETE": 0, "PATCH": 0, "HEAD": 0, "OPTIONS": 0, "CONNECT": 0, "TRACE": 0, "Any": 0, "Add": 1}
+	segs := map[string]bool{}
+	unresolved := map[string]bool{}
+	nRoutes := 0
+	byDir := map[string][]string{}
+	_ = filepath.WalkDir(repo, func(path string, d fs.DirEntry, err error) error {
+		if err != nil {
+			return nil
+		}
+		if d.IsDir() {
+			if n := d.Name(); n == ".git" || n == "vendor" || n == "docs" || n == "e2e-tests" || n == "node_modules" {
+				return filepath.SkipDir
+			}
+			return nil
+		}
+		if strings.HasSuffix(path, ".go") && !strings.HasSuffix(path, "_test.go") && !strings.Contains(path, "zz_verif") && !strings.HasSuffix(path, "_mock.go") {
+			byDir[filepath.Dir(path)] = append(byDir[filepath.Dir(path)], path)
+		}
+		return nil
+	})
+	for _, files := range byDir {
+		fset := token.NewFileSet()
+		var parsed []*ast.File
+		consts := map[string]ast.Expr{}
+		for _, f := range files {
+			af, err := parser.ParseFile(fset, f, nil, 0)
+			if err != nil {
+				continue
+			}
+			parsed = append(parsed, af)
+			for _, d := range af.Decls {
+				if gd, ok := d.(*ast.GenDecl); ok && gd.Tok == token.CONST {
+					for _, sp := range gd.Specs {
+						vs := sp.(*ast.ValueSpec)
+						for i, n := range vs.Names {
+							if i < len(vs.Values) {
+								consts[n.Name] = vs.Values[i]
+							}
+						}
+					}
+				}
+			}
+		}
+		var eval func(e ast.Expr, depth int) (string, bool)
+		eval = func(e ast.Expr, depth int) (string, bool) {
+			if depth > 8 {
+				return "", false
+			}
+			switch x := e.(type) {
+			case *ast.BasicLit:
+				return c04StrLit(x)
+			case *ast.ParenExpr:
+				return eval(x.X, depth+1)
+			case *ast.Ident:
+				if x.Name == "baseURL" {
+					return "", true
+				}
+				if v, ok := consts[x.Name]; ok {
+					return eval(v, depth+1)
+				}
+			case *ast.BinaryExpr:
+				if x.Op == token.ADD {
+					a, ok1 := eval(x.X, depth+1)
+					b, ok2 := eval(x.Y, depth+1)
+					return a + b, ok1 && ok2
+				}
+			}
+			return "", false
+		}
+		for _, af := range parsed {
+			ast.Inspect(af, func(n ast.Node) bool {
+				c, ok := n.(*ast.CallExpr)
+				if !ok {
+					return true
+				}
+				se, ok := c.Fun.(*ast.SelectorExpr)
+				if !ok {
+					return true
+				}
+				idx, isVerb := verbs[se.Sel.Name]
+				if !isVerb || len(c.Args) < idx+2 {
+					return true
+				}
+				// a route registration has a handler after the path; the receiver is a router-like value
+				recv := strings.ToLower(exprString(se.X))
+				if !(strings.Contains(recv, "router") || strings.Contains(recv, "echo") || strings.Contains(recv, "server")) {
+					return true
+				}
+				nRoutes++
+				p, ok := eval(c.Args[idx], 0)
+				if !ok || !strings.HasPrefix(p, "/") {
+					unresolved[c04Flat(c.Args[idx])] = true
+					return true
+				}
+				p = strings.TrimPrefix(p, "/")
+				if i := strings.Index(p, "/"); i >= 0 {
+					p = p[:i]
+				}
+				segs["/"+p] = true
+				return true
+			})
+		}
+	}
+	var segList, unres []string
+	for k := range segs {
+		segList = append(segList, k)
+	}
+	for k := range unresolved {
+		unres = append(unres, k)
+	}
+	sort.Strings(segList)
+	sort.Strings(unres)
+	var segLean []string
+	for _, b := range segList {
+		segLean = append(segLean, c04LeanStr(b))
+	}
+	l.def("routeFirstSegments", "List Str", "["+strings.Join(segLean, ", ")+"]", segList)
+	l.def("routePathsNotEvaluated", "List String", leanStrList(unres), unres)
+	l.def("routeRegistrationsSeen", "Nat", strconv.Itoa(nRoutes), nRoutes)
 }
